@@ -1,6 +1,7 @@
 import JmesVerif.Lemmas.SemFullConform
 import JmesVerif.Lemmas.SemFullExt
 import JmesVerif.Props.C01
+import JmesVerif.Lemmas.InterpEquiv
 /-!
 # C01, full language — search results conform to the JMESPath specification, functions included
 
@@ -177,6 +178,12 @@ example (a : Ast) (ha : a.strip =
     | true => rfl
     | false => simp [resultOfF, hg] at h
 
+/-- the model `interp` these theorems are about equals the evaluator as re-translated from interpreter.rs on every run
+(`Generated/InterpCode.lean`, all 18 arms; see `Props/C11.lean` for the discussion of the side conditions) -/
+theorem C01_translated_interpreter (rt : Registry) (fuel : Nat) (d : Val) (a : Ast) (off : Nat) (h : a.I32Ok = true) :
+    Generated.InterpCode.interpret sliceGuarded rt.get (callFn rt) fuel d a off = interp rt fuel d a off :=
+  gen_interpret_eq_guarded rt fuel d a off h
+
 end JmesVerif
 
 #print axioms JmesVerif.C01_conformance_full
@@ -195,3 +202,4 @@ end JmesVerif
 #print axioms JmesVerif.C01_search
 #print axioms JmesVerif.C01_unconditional_false
 #print axioms JmesVerif.C01_translated_truthy_type
+#print axioms JmesVerif.C01_translated_interpreter
